@@ -21,6 +21,7 @@ from checks import phaselib as P
 LEVEL = "proof"
 PID = "C14"
 SEL_WRAP = "-Wl,--wrap=_soxr_rdft -Wl,--wrap=_soxr_fir_to_phase"
+FIT_FLOOR = 4e-9        # resolution of the harness' on-the-fly least-squares residual (normal equations in long double over 2e4 frames)
 PB_TOL_DB = 0.01        # soxr.h: the tightest pass-band promise the library makes (SOXR_ROLLOFF_SMALL: <= 0.01 dB)
 
 
@@ -315,7 +316,7 @@ def evaluate(ctx, r):
             db = abs(20 * math.log10(max(s1["amp"], 1e-300) / max(s0["amp"], 1e-300)))
             if db > PB_TOL_DB:
                 bad.append(((p,), "gain", "pass-band tone at %.2f of the pass-band: gain differs from linear phase by %.4f dB (> %.2f dB)" % (s0["x"], db, PB_TOL_DB)))
-            tol = max(4 * s0["rms"], 2.0 ** (1 - bits) + 8 * eps)
+            tol = max(4 * s0["rms"], 2.0 ** (1 - bits) + 8 * eps) + FIT_FLOOR
             if s1["rms"] > tol:
                 bad.append(((p,), "residual", "pass-band tone at %.2f: fit residual %.3g rms (linear phase: %.3g; tolerance %.3g)" % (s0["x"], s1["rms"], s0["rms"], tol)))
     pm = r.get("proto")
@@ -364,18 +365,18 @@ BASE_RATIOS = [(1, 2), (2, 1), (1, 4), (3, 1), (2, 3), (1, 8), (1, 16), (1, 128)
 def make_jobs(ctx):
     rng = ctx.rng
     jobs = []
-    nbase = 14 if ctx.quick else len(BASE_RATIOS)
+    nbase = len(BASE_RATIOS)
     recs = [4, 1, 6, 4, 3, 7, 4, 0x14, 4, 4, 4, 6, 5, 4, 2, 4, 1, 4, 6, 4, 4]
     combos = [(ir, orr, recs[i], rng.below(2)) for i, (ir, orr) in enumerate(BASE_RATIOS[:nbase])]
     if not ctx.quick:
         combos += [(ir, orr, rec, simd) for (ir, orr) in BASE_RATIOS[:9] for rec in (1, 4, 6) for simd in (0, 1)]
-    for i in range(5 if ctx.quick else 80):
+    for i in range(12 if ctx.quick else 120):
         ir, orr = cr.gen_rates(rng, max_up=300.0, max_down=400.0)
         combos.append((ir, orr, rng.choice([1, 2, 3, 4, 4, 5, 6, 7]), rng.below(2)))
     for (ir, orr, rec, simd) in combos:
         c0 = P.mkcfg(float(ir), float(orr), rec & ~0x30, rng.choice([0, 0, 0, 2, 8]), simd)
         a = rng.choice([10, 40, 49, 5, 33, 12.5, 45, 1])
-        phases = [50, 0, 100, 25, 75, a, 100 - a] if not ctx.quick else [50] + rng.choice([[0, 100], [25, 75]]) + [a, 100 - a]
+        phases = [50, 0, 100, 25, 75, a, 100 - a]
         if rec & 0x30:
             phases = [50, 25, 75]        # the recipe's own intermediate-phase bit is exercised in the plan sweep; here explicit values
         if rng.chance(.25):
